@@ -172,7 +172,8 @@ def generate(prop, rng, tier):
             ops.append(c)
         else:
             ops.append(_gen_direct(rng, wp, pool))
-    return {'swarm': {'wp': wp, 'tier': tier, 'built': sorted(subset)}, 'init': {'pool': specs}, 'ops': ops,
+    audit = rng.random() < 0.25
+    return {'swarm': {'wp': wp, 'tier': tier, 'built': sorted(subset), 'audit': audit}, 'init': {'pool': specs}, 'ops': ops,
             'faults': {'flips': flips}}
 
 
@@ -251,21 +252,28 @@ def execute(world, run, prop=None):
     plan = BackendPlan(run['swarm']['built'], run['faults'].get('flips'))
     shadow = Shadow(world, rec)
     fired = dict(plan.fired)
-    with world.run_context(plan, events, shadow):
-        pool = api.make_trains(spk, specs)
-        for step, op in enumerate(run['ops']):
-            rec.step = step
-            if op['op'] == 'call':
-                st, r = api.try_invoke(spk, pool, op['fn'], op['form'], op['sel'], op['kw'])
-                rec.log(('call', op['fn'], op['form'], st, digest(norm(r))))
-                if st == 'exc' and isinstance(r, ImportError):
-                    rec.violate('C12.silent_fallback', {'op': op, 'exception': norm(r),
-                                                        'built': run['swarm']['built']},
-                                {'fn': op['fn']})
-            elif op['op'] == 'e2e':
-                _op_e2e(world, spk, rec, op, pool, specs, plan, events, shadow)
-            else:
-                _op_direct(world, spk, rec, op, pool, specs)
+    from .. import _rt
+    _rt.AUDIT[0] = bool(run['swarm'].get('audit'))
+    if _rt.AUDIT[0]:
+        rec.probe('bounds_audit_run')
+    try:
+      with world.run_context(plan, events, shadow):
+          pool = api.make_trains(spk, specs)
+          for step, op in enumerate(run['ops']):
+              rec.step = step
+              if op['op'] == 'call':
+                  st, r = api.try_invoke(spk, pool, op['fn'], op['form'], op['sel'], op['kw'])
+                  rec.log(('call', op['fn'], op['form'], st, digest(norm(r))))
+                  if st == 'exc' and isinstance(r, ImportError):
+                      rec.violate('C12.silent_fallback', {'op': op, 'exception': norm(r),
+                                                          'built': run['swarm']['built']},
+                                  {'fn': op['fn']})
+              elif op['op'] == 'e2e':
+                  _op_e2e(world, spk, rec, op, pool, specs, plan, events, shadow)
+              else:
+                  _op_direct(world, spk, rec, op, pool, specs)
+    finally:
+        _rt.AUDIT[0] = False
     fired = dict(plan.fired)
     rec.log(('events', len(events), digest(events)))
     return rec, fired
@@ -274,7 +282,11 @@ def execute(world, run, prop=None):
 def _op_e2e(world, spk, rec, op, pool, specs, plan, events, shadow):
     """the same public call with every extension built and with none: same result"""
     res = []
-    for built in (ALL_COMPILED, ()):
+    configs = [tuple(ALL_COMPILED), ()]
+    part = tuple(sorted(plan.available - {'cython_get_tau'}))
+    if part and set(part) != set(ALL_COMPILED):
+        configs.append(part)     # the run's own partial build must agree as well
+    for built in configs:
         world.plan = BackendPlan(built)
         world.shadow = None
         try:
@@ -283,17 +295,22 @@ def _op_e2e(world, spk, rec, op, pool, specs, plan, events, shadow):
             world.plan = plan
             world.shadow = shadow
         res.append((st, norm(r)))
-    rec.log(('e2e', op['fn'], res[0][0], res[1][0], digest(res[0][1]), digest(res[1][1])))
+    rec.log(('e2e', op['fn'], [(r[0], digest(r[1])) for r in res]))
     rec.compared += 1
-    (s1, n1), (s2, n2) = res
-    if s2 == 'exc' and n2.get('exc') in ('ImportError', 'ModuleNotFoundError'):
-        rec.violate('C12.silent_fallback', {'op': op, 'exception': n2}, {'fn': op['fn']})
-        return
-    if s1 != s2 or (s1 == 'ok' and not same_norm(n1, n2)) or (s1 == 'exc' and n1.get('exc') != n2.get('exc')):
-        rec.violate('C12.fallback_same_result',
-                    {'op': op, 'trains': [specs[i]['s'] for i in op['sel']], 'edges': specs[0]['e'],
-                     'all_built': n1, 'none_built': n2},
-                    {'fn': op['fn'], 'form': op['form'], 'status_a': s1, 'status_b': s2})
+    (s1, n1) = res[0]
+    for k in range(1, len(res)):
+        (s2, n2) = res[k]
+        if s2 == 'exc' and n2.get('exc') in ('ImportError', 'ModuleNotFoundError'):
+            rec.violate('C12.silent_fallback', {'op': op, 'exception': n2, 'built': list(configs[k])},
+                        {'fn': op['fn']})
+            return
+        if s1 != s2 or (s1 == 'ok' and not same_norm(n1, n2)) or (s1 == 'exc' and n1.get('exc') != n2.get('exc')):
+            rec.violate('C12.fallback_same_result',
+                        {'op': op, 'trains': [specs[i]['s'] for i in op['sel']], 'edges': specs[0]['e'],
+                         'all_built': n1, 'other_build': list(configs[k]), 'other_result': n2},
+                        {'fn': op['fn'], 'form': op['form'], 'status_a': s1, 'status_b': s2,
+                         'partial': bool(configs[k])})
+            return
 
 
 def _aux(spk, st):
